@@ -235,14 +235,18 @@ fn run_edge_probes(ctx: &mut Ctx) {
             );
         }
     }
-    // (2) blst wrapper on the empty input (msm_specific guards this case itself)
+    // (2) regression: the blst wrapper on the empty input used to panic (the binding indexes
+    // `points[0]`); fixed in /repo: the empty sum is the identity
     let res = mzkh::catch(|| G1Projective::multi_exp(&[], &[]));
     let ans = match &res {
         Ok(p) => msm::affine_str::<G1Affine>(p),
         Err(_) => "panic".to_string(),
     };
-    ctx.count(&format!("probe:multi_exp-empty:{}", if res.is_ok() { "value" } else { "panic" }));
-    ctx.case("msm-bls-multiexp-empty", false, "msm bls multiexp-empty 1 0x0 32 -", &ans);
+    ctx.case("msm-bls-multiexp", false, "msm bls multiexp 1 0x0 32 -", &ans);
+    if !matches!(&res, Ok(p) if bool::from(p.is_identity())) {
+        ctx.oracle_fail("multi_exp:empty-input", "G1Projective::multi_exp on the empty input does not return the identity",
+            serde_json::json!({"minimal": "G1Projective::multi_exp(&[], &[])", "result": ans}));
+    }
     let _ = G1Affine::identity();
 }
 
